@@ -27,6 +27,7 @@ func runC07(c *Check, tier string) {
 		ruleR08b(c, w, "R07g")
 	}
 	rulePipeErrorPropagated(c, "R07h")
+	ruleReaderConsumedOnce(c, "R07i", "caching", "output")
 }
 
 func fsCacheMethods(c *Check) []*ssa.Function {
